@@ -258,7 +258,7 @@ def run(run, tier, seed):
     run.add_part('plugin_bfs_unmerged', res)
     if tier == 'thorough':
         from .. import gdbreplay
-        gdbreplay.replay_part(run, 'C15')
+        run.parts_in_child(lambda r: gdbreplay.replay_part(r, 'C15'))
     run.rule = ('BFS over plugin events {message(conn in 2, thread in 2, first message get_registry sent/received/none), '
                 'destroy(conn in 3)} merged on the reference registry; non-trivial = a destruction or an address opened again')
     run.bound = {'depth': depth}
